@@ -344,6 +344,56 @@ func escRule(c *Ctx, r *Report, rule string) {
 			r.check(rule, fmt.Sprintf("writeString: raw write #%d never carries a must-escape code point", nRaw), call.Pos(), len(bad) == 0, fmt.Sprintf("code points %s reach an unescaped byte write (reach set %s): invalid JSON / SDL string", bad, rs))
 		}
 	}
+	// writes outside the per-character loop that carry the string itself (a fast path): allowed only
+	// under a plainness predicate proven, character class by character class, to reject every
+	// must-escape code point
+	nWhole := 0
+	for _, b := range fn.Blocks {
+		if innermostLoop(loops, b) != nil {
+			continue
+		}
+		for _, in := range b.Instrs {
+			call, ok := in.(*ssa.Call)
+			if !ok || !call.Call.IsInvoke() || call.Call.Method.Name() != "Write" || len(call.Call.Args) != 1 {
+				continue
+			}
+			if elems, known := sliceLitElems(call.Call.Args[0]); known {
+				allC := true
+				for _, e := range elems {
+					if _, isC := e.(*ssa.Const); !isC {
+						allC = false
+					}
+				}
+				if allC {
+					continue
+				}
+			}
+			if cv, ok := call.Call.Args[0].(*ssa.Convert); ok {
+				if _, isC := cv.X.(*ssa.Const); isC {
+					continue
+				}
+			}
+			nWhole++
+			okG, why := false, "the string (or a part of it) is written as it is, outside the per-character escaping loop, with no plainness test"
+			for _, g := range blockGuards(b) {
+				g = normGuard(g)
+				pc, isCall := g.cond.(*ssa.Call)
+				if !isCall || !g.val {
+					continue
+				}
+				pf := pc.Call.StaticCallee()
+				if pf == nil || !c.inPkg(pf) {
+					continue
+				}
+				if okP, whyP := plainPredicate(c, pf); okP {
+					okG = true
+				} else {
+					why = fmt.Sprintf("written as it is under %s(), which does not exclude every must-escape code point: %s", pf.Name(), whyP)
+				}
+			}
+			r.check(rule, fmt.Sprintf("writeString: whole-string write #%d only for strings proven free of must-escape code points", nWhole), call.Pos(), okG, why+": a backslash, quote or control character reaches the output unescaped (invalid JSON / SDL string, or a different string when read back)")
+		}
+	}
 	r.floor(rule, "escape writes in the string writer", nEsc, 7)
 	r.floor(rule, "raw writes in the string writer", nRaw, 2)
 	// every must-escape code point is handled by some escape: the union of reach sets of escape writes covers mustEscape
@@ -385,6 +435,66 @@ func escRule(c *Ctx, r *Report, rule string) {
 		rest = nr.norm()
 	}
 	r.check(rule, "writeString: every must-escape code point has an escape", fn.Pos(), len(rest) == 0 && !missing, fmt.Sprintf("code points %s have no escape arm", rest))
+}
+
+// plainPredicate: pf(s string) bool scans every byte / code point of s and can complete an
+// iteration (not answer false) only for values outside the must-escape set; it answers true only
+// after the scan.
+func plainPredicate(c *Ctx, pf *ssa.Function) (bool, string) {
+	if len(pf.Params) != 1 || pf.Signature.Results().Len() != 1 {
+		return false, "not a predicate over one string"
+	}
+	loops := loopsOf(pf)
+	if len(loops) != 1 {
+		return false, "expected exactly one scanning loop"
+	}
+	l := loops[0]
+	var val ssa.Value
+	uni := ival{0, 255}
+	full := false
+	for b := range l.body {
+		for _, in := range b.Instrs {
+			switch t := in.(type) {
+			case *ssa.Lookup, *ssa.Index:
+				var x, idx ssa.Value
+				if lk, ok := t.(*ssa.Lookup); ok {
+					x, idx = lk.X, lk.Index
+				} else {
+					x, idx = t.(*ssa.Index).X, t.(*ssa.Index).Index
+				}
+				if x == ssa.Value(pf.Params[0]) {
+					if ind := loopInduction(l); ind.ok && idx == ssa.Value(ind.phi) {
+						if lx, isLen := isLenOf(ind.length); isLen && lx == ssa.Value(pf.Params[0]) {
+							val, full = t.(ssa.Value), true
+						}
+					}
+				}
+			case *ssa.Extract:
+				if nx, ok := t.Tuple.(*ssa.Next); ok && nx.IsString && t.Index == 2 {
+					if rg, ok := nx.Iter.(*ssa.Range); ok && rg.X == ssa.Value(pf.Params[0]) {
+						val, full, uni = t, true, ival{0, 0x10FFFF}
+					}
+				}
+			}
+		}
+	}
+	if val == nil || !full {
+		return false, "the loop does not visit every byte (or code point) of the string from 0 to its length"
+	}
+	for _, rt := range returnsOf(pf) {
+		k, isC := rt.Results[0].(*ssa.Const)
+		isFalse := isC && k.Value != nil && k.Value.String() == "false"
+		if !isFalse && l.body[rt.Block()] {
+			return false, "an answer other than false is given before the scan is complete"
+		}
+	}
+	for _, lt := range l.latches {
+		rs := reachSet(lt, val, uni)
+		if bad := rs.intersect(mustEscape); len(bad) > 0 {
+			return false, fmt.Sprintf("the scan steps over code points %s without answering false", bad)
+		}
+	}
+	return true, ""
 }
 
 func min64(a, b int64) int64 {
